@@ -717,7 +717,10 @@ def run_z3_cli(smt2, timeout_ms, seed):
     except subprocess.TimeoutExpired:
         return "unknown", None, "timeout (killed)"
     finally:
-        os.unlink(path)
+        try:
+            os.unlink(path)
+        except OSError:
+            pass
     first = out.strip().splitlines()[0].strip() if out.strip() else ""
     if first == "unsat":
         return "unsat", None, ""
@@ -786,7 +789,10 @@ def run_cvc5_text(smt2, timeout_ms):
     except Exception:
         st = "error"
     finally:
-        os.unlink(path)
+        try:
+            os.unlink(path)
+        except OSError:
+            pass
     return st, time.time() - t0
 
 
@@ -803,7 +809,10 @@ def run_cvc5(solver, timeout_ms):
     except Exception as e:   # timeout or crash of the back end: undecided
         st = "error"
     finally:
-        os.unlink(path)
+        try:
+            os.unlink(path)
+        except OSError:
+            pass
     return st, time.time() - t0
 
 
